@@ -23,6 +23,7 @@
 From Coq Require Import String.
 From PV Require Import Base.Bytes Base.Outcome Base.Fmt Base.Enum Base.PyData.
 From PV Require Import Gen.ElfLayouts Spec.ElfGabi Spec.C01Obs Spec.C01Image Model.C01ElfFile.
+From PV Require Import Model.C01History Spec.C01History Proofs.C01History.
 From PV Require Import Spec.C01Machines.
 From PV Require Import Proofs.C01Lemmas Proofs.C01Open Proofs.C01Sections Proofs.C01Iter
   Proofs.C01Dispatch Proofs.C01Machines Proofs.C01Top Proofs.C01Examples.
@@ -152,6 +153,18 @@ Theorem C01_lookup_meaning : forall s name,
   (exp_index_by_name s name = None <-> forall x, In x (i_sections s) -> fst x <> name).
 Proof. exact lookup_meaning. Qed.
 Print Assumptions C01_lookup_meaning.
+
+(* ---- 5b. none of this depends on what was called before on the same object.  For EVERY history
+   of calls on one ELFFile (Model/C01History.v: enumerations abandoned after k items — a generator
+   that is never exhausted —, full enumerations, with or without type filter, has_section /
+   get_section_index / get_section_by_name, in any order, starting from the fresh object), each
+   answer is the history-free one above, and the object's _section_name_map is None or the
+   COMPLETE map at every point *)
+Theorem C01_history_independent : forall img s ef ops, wf_image img s = true -> elf_open img = Ok ef ->
+  exists st', hrun ef None ops = (st', map (fun op => Ok (exp_hans s op)) ops) /\
+              (st' = None \/ st' = Some (full_map s)).
+Proof. exact history_independent. Qed.
+Print Assumptions C01_history_independent.
 
 (* ---- 6. codes with a standard name are reported by that name, all others as the raw integer:
    the enum-typed fields and the dictionary each is decoded with (sh_type / p_type: the one the
